@@ -102,7 +102,12 @@ func (c *ConfigSender) Group() curve.Curve {
 //
 // If the secret share and public point are not nil, a refresh is done instead.
 func StartKeygen(group curve.Curve, receiver bool, selfID, otherID party.ID, secretShare curve.Scalar, public curve.Point, pl *pool.Pool) protocol.StartFunc {
+	// decided once, from the arguments: the start function below may run more than once
+	refreshing := secretShare != nil || public != nil
 	return func(sessionID []byte) (round.Session, error) {
+		// work on a copy: assigning to the captured argument would turn a second
+		// invocation of this start function into a refresh without a public key
+		secretShare := secretShare
 		info := round.Info{
 			ProtocolID:       "doerner/keygen",
 			FinalRoundNumber: 3,
@@ -114,7 +119,7 @@ func StartKeygen(group curve.Curve, receiver bool, selfID, otherID party.ID, sec
 
 		// A refresh is a different protocol from a key generation between the
 		// same two parties: it must not share its session tag.
-		if secretShare != nil || public != nil {
+		if refreshing {
 			info.ProtocolID = "doerner/refresh"
 		}
 
